@@ -78,10 +78,20 @@ func (a *Activation) callCommon(c *ssa.CallCommon, st *State, pos token.Pos, pre
 			if fvv, ok := v.X.(*ssa.FreeVar); ok {
 				vname = fvv.Name()
 			}
+			if fa, ok := v.X.(*ssa.FieldAddr); ok {
+				// a function-valued field (a listener): matched by field name ("e.onFull" or "onFull")
+				if st, ok := derefType(fa.X.Type()).Underlying().(*types.Struct); ok {
+					vname = st.Field(fa.Field).Name()
+				}
+			}
 		}
 		if vname != "" {
 			for _, cl := range con.Clauses {
-				if cl.Kind == "beforecall" && cl.Name == vname {
+				cn := cl.Name
+				if k := strings.LastIndex(cn, "."); k >= 0 {
+					cn = cn[k+1:]
+				}
+				if cl.Kind == "beforecall" && cn == vname {
 					ra := a.rootAct()
 					for ai, av := range args {
 						ra.lets[fmt.Sprintf("callarg_%d", ai)] = av
